@@ -202,8 +202,8 @@ def main() -> int:
     lines: list[str] = []
     exit_code = 0
     violations = 0
-    if errors or vacuous or (bounded and bounded.get("error")):
-        exit_code = 3
+    machinery = bool(errors or vacuous or (bounded and bounded.get("error")))
+    if machinery:
         for e in errors:
             sys.stderr.write(f"MACHINERY ERROR in {e['key']}:\n{e['error']}\n")
         for v in vacuous:
@@ -250,6 +250,8 @@ def main() -> int:
             lines.append(f"VIOLATION property={pid} replay={path}")
             exit_code = 1
             violations = len(new_bfail)
+        elif machinery:
+            exit_code = 3      # nothing to report and part of the machinery failed: not a verdict
         elif undecided:
             exit_code = 2
             for r in undecided[:20]:
